@@ -332,18 +332,19 @@ func c06ComplementViewSym(n int) {
 	}
 	g := &DenseGraph{NumberOfVertices: n, NumberOfEdges: m, DegreeSequence: deg, Edges: edges}
 	c := Complement(g)
-	check := func(what string) {
-		rt.Check(c.N() == n, "Complement view"+what+": N() wrong")
+	// bit may grow by one row/column when a vertex is added
+	check := func(what string, nn int) {
+		rt.Check(c.N() == nn, "Complement view"+what+": N() wrong")
 		degs := c.Degrees()
-		rt.Check(len(degs) == n, "Complement view"+what+": Degrees() has the wrong length")
-		if len(degs) != n {
+		rt.Check(len(degs) == nn, "Complement view"+what+": Degrees() has the wrong length")
+		if len(degs) != nn {
 			return
 		}
 		wm := 0
-		for i := 0; i < n; i++ {
+		for i := 0; i < nn; i++ {
 			wd := 0
 			rt.Check(!c.IsEdge(i, i), "Complement view"+what+": loop")
-			for j := 0; j < n; j++ {
+			for j := 0; j < nn; j++ {
 				if i == j {
 					continue
 				}
@@ -353,17 +354,29 @@ func c06ComplementViewSym(n int) {
 				}
 				rt.Check(c.IsEdge(i, j) == (bit[i][j] == 0), "Complement view"+what+": IsEdge is not the negation of the graph's")
 			}
-			rt.Check(degs[i] == (n-1)-wd, "Complement view"+what+": Degrees() differs from adjacency")
+			rt.Check(degs[i] == (nn-1)-wd, "Complement view"+what+": Degrees() differs from adjacency")
 		}
-		rt.Check(c.M() == n*(n-1)/2-wm, "Complement view"+what+": M() differs from the number of edges")
+		rt.Check(c.M() == nn*(nn-1)/2-wm, "Complement view"+what+": M() differs from the number of edges")
 	}
-	check("")
+	check("", n)
 	// the view is live: edit the graph underneath
 	g.AddEdge(0, n-1)
 	bit[0][n-1], bit[n-1][0] = 1, 1
 	g.RemoveEdge(1, 2)
 	bit[1][2], bit[2][1] = 0, 0
-	check(" after the graph was edited")
+	check(" after the graph was edited", n)
+	// ... including its vertex count
+	g.AddVertex([]int{0, n - 1})
+	for i := range bit {
+		bit[i] = append(bit[i], 0)
+	}
+	bit = append(bit, make([]byte, n+1))
+	bit[0][n], bit[n][0] = 1, 1
+	bit[n-1][n], bit[n][n-1] = 1, 1
+	check(" after a vertex was added to the graph", n+1)
+	g.RemoveVertex(n)
+	g.RemoveVertex(n - 1)
+	check(" after vertices were removed from the graph", n-1)
 	rt.Reach("end")
 }
 
